@@ -1087,9 +1087,7 @@ def rule_m(res: Results, idx: Index, m: Module) -> None:
             else:
                 res.violation("R-C02m", site, key, f"`{src(texpr, 70)}` accepts any consumer of the walked value that is a first-input passthrough operator, whichever input position the value has: "
                               "`Transpose(x) -> CastLike(a, ·) -> Transpose` is folded to `CastLike(a, x)`, changing the result's layout and values", fi.qualname)
-    res.analysed["forward_chain_walks"] = n
-    if n == 0:
-        raise AnalysisError("no forward chain walk using _is_first_input_passthrough found (1 on the confirmed tree)")
+    res.analysed["forward_chain_walks"] = n   # the rule's floor (1) reports a vanished walk as an analysis error at the end of the run
 
 
 def _nth_call(fi: FuncInfo, c: ast.AST) -> int:
